@@ -14,12 +14,15 @@ def run(ctx):
     ctx.model(MOD, "c11_planar/PlanarGen_mc.cfg", heap="12g", timeout=2400)
     gen = os.path.join(ctx.work, "gen.out")
     ctx.tlc(MOD, "c11_planar/PlanarGen_dump.cfg", workers=1, outfile=gen, heap="8g", timeout=2400)
-    sim = os.path.join(ctx.work, "sim.out")
-    nsim = 1500 if big else 60
-    ctx.tlc(MOD, "c11_planar/PlanarGen_sim.cfg", workers=1, outfile=sim, heap="4g", timeout=2400,
-            simulate="num=%d" % nsim, depth=60, extra=["-seed", str(ctx.seed)])
-    with open(gen, "a") as f:
-        f.write(open(sim).read())
+    # long randomised behaviours (PlanarGen.Randomised: one random successor per class of operation), every state emitted:
+    # simP stays planar (K4 start, no K5 block), simN mixes all starts and may glue K5 blocks onto planar graphs
+    nsim = 600 if big else 40
+    for cfg in ("simP", "simN"):
+        sim = os.path.join(ctx.work, cfg + ".out")
+        ctx.tlc(MOD, "c11_planar/PlanarGen_%s.cfg" % cfg, workers=1, outfile=sim, heap="4g", timeout=2400,
+                simulate="num=%d" % nsim, depth=45, extra=["-seed", str(ctx.seed)])
+        with open(gen, "a") as f:
+            f.write(open(sim).read())
     out = ctx.sub("drive")
     meta = ctx.drive(out, gen=gen, shards=16, timeout=3000)
     traces = vlib.glob_traces(out)
@@ -37,9 +40,9 @@ def run(ctx):
         traces_validated_against_impl=st.get("segs", 0),
         rule="exact oracle (GraphTheory.tla: K5/K3,3 subgraph after some sequence of edge contractions, cross-checked by TLC): every class n<=6 under "
              "ALL n! relabellings on dense/sparse + a view, %s classes of n=7%s. By construction (PlanarGen.tla, itself model-checked against the oracle "
-             "on graphs up to 7 vertices): every phase-2 state of the behaviours with <=4 operations and %d simulated behaviours of 40 operations "
-             "(stacked triangulations, then edge deletions / subdivisions / pendant and isolated vertices; K5 and K3,3 with subdivisions, extra edges and "
-             "vertices), rebuilt with the real EditableGraph operations on both representations and submitted to IsPlanar under 4 seeded relabellings + "
+             "on graphs up to 7 vertices): every state of the behaviours with <=3 operations and every state of 2 x %d randomised behaviours of 40 operations "
+             "(stacked triangulations, then edge deletions / subdivisions / pendant and isolated vertices / glued K4 blocks / new path components; K5 and "
+             "K3,3 with subdivisions, extra edges and vertices; K5 blocks glued onto planar graphs), rebuilt with the real EditableGraph operations on both representations and submitted to IsPlanar under 4 (non-planar) / 10 (planar) seeded relabellings + "
              "a view, each call under recover and a 20 s watchdog. Non-trivial = connected, n>=4, neither complete nor edgeless."
              % ("all" if big else "120 seeded", ", 1500 seeded classes of n=8" if big else "", nsim),
         samples=["C11[class6](n=6,e=[3 4 5 6 7 8 10 11 12];721 variants)", "C11[gen-nonplanar](n=31,...;7 variants)", "C11[gen-planar](n=38,...;7 variants)"],
